@@ -296,6 +296,63 @@ def gen_dir_cases(rng, W, seeds, n):
     return cases
 
 
+def gen_signed_layout_cases(rng, W, seeds, n, binpath):
+    """well-typed adversarial LAYOUTS that are properly signed by the trusted owner: whatever a layout can
+    legitimately say (odd names, extreme thresholds, empty tables, hostile patterns) must not crash verification.
+    Inspection commands are neutralised (empty or non-existent) so that no generated string is ever executed."""
+    docs = []
+    for i in range(n):
+        base = copy.deepcopy(rng.choice(seeds.json["layout"]))
+        d = adversarial_json(rng, base)
+        if not isinstance(d, dict):
+            continue
+        d["_type"] = "layout"
+        if not isinstance(d.get("expires"), str) or rng.random() < 0.8:
+            d["expires"] = scen.future()
+        for ins in d.get("inspect", []) if isinstance(d.get("inspect"), list) else []:
+            if isinstance(ins, dict):
+                ins["run"] = rng.choice([[], ["/nonexistent/itv-no-such-command"], ["/nonexistent/x", "a b"]])
+        docs.append(d)
+    so = common.run_batch(binpath, [{"op": "sign", "signed": d, "signers": ["ed0"], "via": "raw_builder"} for d in docs])
+    cases = []
+    for d, o in zip(docs, so):
+        if "ok" not in o:
+            continue      # the library refuses to represent this document: nothing to verify
+        w = o["ok"]["wire"]
+        files = {}
+        steps = w["signed"].get("steps", [])
+        for st in steps[:3]:
+            nm = str(st.get("name", "x")).replace("/", "_").replace("\x00", "_")[:60] or "x"
+            if nm in (".", ".."):
+                nm = "dot"
+            link = copy.deepcopy(rng.choice(seeds.json["metablock"]))
+            files[f"{nm}.{W.pfx('ed4')}.link"] = json.dumps(link, ensure_ascii=False)
+        cases.append({"op": "verify", "layout": json.dumps(w, ensure_ascii=False), "caller_keys": [[W.kid("ed0"), W.pub("ed0")]],
+                      "files": files, "work_files": {}, "step_name": rng.choice([None, "x", "é"]), "reps": 1,
+                      "meta": {"cls": "hostile_signed_layout"}})
+    return cases
+
+
+def gen_large_cases(rng, seeds):
+    """a few large-but-bounded inputs (<= ~1 MB) for the CPU-time monitor"""
+    cases = []
+    big_rules = [["ALLOW", "*"]] * 20000
+    st = scen.mk_step("s", 1, [], [], big_rules, [])
+    cases.append({"op": "entry", "ep": "step_json", "data": json.dumps(st), "meta": {"cls": "large"}})
+    arts = {f"dir{i // 100}/file{i}": scen.digest(i % 250) for i in range(6000)}
+    link = scen.mk_link("item", arts, dict(arts))
+    cases.append({"op": "entry", "ep": "link", "data": json.dumps(link), "meta": {"cls": "large"}})
+    item = scen.mk_step("item", 1, [], [], [["MATCH", "*", "WITH", "PRODUCTS", "FROM", "ref"], ["MODIFY", "*"], ["DISALLOW", "nomatch"]] * 20,
+                        [["CREATE", "dir1*"], ["ALLOW", "*"]])
+    cases.append({"op": "rules", "kind": "step", "item": item, "links": {"item": link, "ref": scen.mk_link("ref", {}, dict(arts))},
+                  "meta": {"cls": "large"}})
+    cases.append({"op": "entry", "ep": "canon", "data": json.dumps({"k%d" % i: ["v" * 50, i] for i in range(20000)}), "meta": {"cls": "large"}})
+    cases.append({"op": "entry", "ep": "pae_unpack", "data": {"hex": (b"DSSEv1 4 link 900000 " + b"x" * 900000).hex()}, "meta": {"cls": "large"}})
+    cases.append({"op": "entry", "ep": "metablock", "data": json.dumps({"signatures": [{"keyid": "ab" * 32, "sig": "cd" * 64}] * 5000, "signed": link}),
+                  "meta": {"cls": "large"}})
+    return cases
+
+
 # ---- judging ---------------------------------------------------------------------------------
 
 
@@ -337,6 +394,11 @@ def isolate(binpath, case, obs, res, env=None, runner=None):
     o2 = common.run_batch(binpath, [case], cpu_s=20 if not runner else 600, wall_s=900, env=env, runner=runner,
                           as_bytes=0 if (env or runner) else 8 << 30)[0]
     ep = case.get("ep", case["op"])
+    if "crash" in o2 and o2["crash"].get("rc") == 101 and o2["crash"].get("signal") is None:
+        # exit status 101 without a signal is a Rust panic that unwound out of main: every library call is inside
+        # catch_unwind, so this is the harness's own `expect` (e.g. a file it could not materialise), not the library
+        res.inconclusive.append(f"harness panic while materialising a case for {ep}: {o2['crash'].get('log_tail', '')[-200:]}")
+        return "harness"
     if "crash" in o2:
         sig = o2["crash"].get("signal")
         kind = "hang(cpu-limit)" if sig in (24, 9) else f"abort(signal {sig})"
@@ -367,6 +429,9 @@ def shard(binpath, seed, sh, n, env=None, runner=None, tag="native"):
         c["layout"] = scen.dumps(w)
         del c["_layout_doc"]
     cases += dirs
+    cases += gen_signed_layout_cases(rng, W, seeds, max(20, n // 20), common.HARNESS / "target" / "release" / "itv")
+    if sh == 0 and not runner:
+        cases += gen_large_cases(rng, seeds)
     # sanitizer / valgrind runs reserve huge virtual ranges: no address-space limit there
     obs = common.run_batch(binpath, cases, cpu_s=300 if not runner else 3000, wall_s=1500 if not runner else 3400, env=env, runner=runner,
                            as_bytes=0 if (env or runner) else 8 << 30)
@@ -575,7 +640,8 @@ def main(ctx):
     req = [f"ep:{e}:err" for e in ("metablock", "layout", "link", "pubkey_json", "spki", "pem_spki", "pk8", "pae_unpack", "keyid_str", "rule_json",
                                     "statement_json", "predicate_json", "envelope")] + \
           ["ep:metablock:ok", "ep:pubkey_json:ok", "ep:spki:ok", "ep:pk8:ok", "ep:rules:ok", "ep:verify:err", "input:adversarial_json",
-           "input:byte_mutation", "input:random_bytes", "input:hostile_link_dir", "input:rules_adversarial"]
+           "input:byte_mutation", "input:random_bytes", "input:hostile_link_dir", "input:rules_adversarial", "input:hostile_signed_layout",
+           "input:large"]
     return common.finish(
         PROP, ctx.tier, ctx.seed, res, t0=ctx.t0,
         rule="28 entry points (JSON decoders of every public type through slice/str, metadata wrappers, raw builder, key importers "
